@@ -165,9 +165,75 @@ Proof.
   apply Rabs_def2 in H. destruct H as [H1 H2].
   assert (K1 : IZR k < 2).
   { apply Rmult_lt_reg_r with (/ 2 ^ 53); [apply Rinv_0_lt_compat; exact P|].
-    eapply Rlt_le_trans; [exact H1|]. rewrite Q. right. field. apply pow_nonzero; lra. }
+    eapply Rlt_le_trans; [exact H1|]. rewrite Q. right. field; try (apply pow_nonzero; lra). }
   assert (K2 : -2 < IZR k).
   { apply Rmult_lt_reg_r with (/ 2 ^ 53); [apply Rinv_0_lt_compat; exact P|].
-    eapply Rle_lt_trans; [|exact H2]. rewrite Q. right. field. apply pow_nonzero; lra. }
+    eapply Rle_lt_trans; [|exact H2]. rewrite Q. right. field; try (apply pow_nonzero; lra). }
   apply lt_IZR in K1. apply lt_IZR in K2. lia.
+Qed.
+
+(* ---- assembled statements --------------------------------------------------------- *)
+Lemma exact_below_2 phi c ev stake total v :
+  Dom c ev stake total -> xr (QcR c) stake total <= 2 ->
+  lottery phi (Some c) ev stake total = Ok (Taylor v) -> v <> Cap ->
+  (verdict_bool (Taylor v) = true <-> draw ev < win_prob (QcR c) stake total).
+Proof.
+  intros D Hx H Hv. destruct v; [| |congruence]; cbn [verdict_bool].
+  - split; [intros _|reflexivity]. apply (w_won_sound phi c ev stake total D); [apply Z.lt_le_incl, FACTOR_pos | exact H].
+  - split; [discriminate|]. intros Hp.
+    assert (A := w_lost_sound phi c ev stake total D FACTOR_pos (valid_le_2 _ Hx) H). lra.
+Qed.
+
+Lemma w1_known : Known_large_x w1_c w1_ev 1 1.
+Proof.
+  split; [exact w1_x_gt_2 | split; [exact w1_should_win|]].
+  assert (H := w1_lost). apply lottery_taylor in H. destruct H as (Ht & _ & H).
+  apply lost_threshold in H; [| rewrite x_real by exact Ht; apply (x_nonneg w1_c w1_ev); exact w1_dom].
+  destruct H as (n & Hn & Hq). rewrite q_real, x_real in Hq by (try exact Ht; apply w1_dom).
+  exists n. split; [apply Hn | exact Hq].
+Qed.
+
+Lemma refuted_large_x : exists phi c ev stake total,
+  Dom c ev stake total /\ Known_large_x c ev stake total /\
+  lottery phi (Some c) ev stake total = Ok (Taylor Lost) /\
+  draw ev < win_prob (QcR c) stake total.
+Proof.
+  exists w1_phi, w1_c, w1_ev, 1%Z, 1%Z.
+  split; [exact w1_dom | split; [exact w1_known | split; [exact w1_lost | exact w1_should_win]]].
+Qed.
+
+Lemma w2_dom : Dom w2_c w2_ev 1 100.
+Proof.
+  split; try lia.
+  - unfold w2_ev, EV_MAX. lia.
+  - unfold QcR. apply Rle_trans with (Q2R 0); [apply Qle_Rle; vm_compute; discriminate | unfold Q2R; simpl; lra].
+Qed.
+
+Lemma refuted_phi_shortcut : exists phi c ev stake total,
+  phi <> QcZ 1 /\ Dom c ev stake total /\
+  won phi (Some c) ev stake total = Ok true /\
+  win_prob (QcR c) stake total < draw ev.
+Proof.
+  exists w2_phi, w2_c, w2_ev, 1%Z, 100%Z.
+  split; [apply w2_shortcut | split; [exact w2_dom | split; [|exact w2_should_lose]]].
+  apply w_phi_one. apply w2_shortcut.
+Qed.
+
+Lemma nonvacuous :
+  let phi := dyadic 3602879701896397 (-54) in
+  let c := dyadic (-8039593716390432) (-55) in
+  Dom c (2 ^ 509) 1 3 /\ xr (QcR c) 1 3 <= 2 /\
+  lottery phi (Some c) (2 ^ 505) 1 3 = Ok (Taylor Won) /\
+  lottery phi (Some c) (2 ^ 509) 1 3 = Ok (Taylor Lost) /\
+  lottery phi (Some c) 0 0 3 = Ok (Taylor Cap).
+Proof.
+  intros phi c.
+  assert (Hc : QcR c <= 0).
+  { unfold QcR. apply Rle_trans with (Q2R 0); [apply Qle_Rle; vm_compute; discriminate | unfold Q2R; simpl; lra]. }
+  split; [split; try lia; [unfold EV_MAX; split; [apply Z.pow_nonneg; lia | apply Z.pow_lt_mono_r; lia] | exact Hc]|].
+  split.
+  - unfold xr, weight, QcR. replace (1 / 3) with (Q2R (1 # 3)) by (unfold Q2R; simpl; lra).
+    rewrite <- Q2R_mult, <- Q2R_opp. replace 2 with (Q2R 2) by (unfold Q2R; simpl; lra).
+    apply Qle_Rle. vm_compute. discriminate.
+  - repeat split; vm_compute; reflexivity.
 Qed.
